@@ -29,7 +29,6 @@ fn gen_history(r: &mut Rng, cfg: &SysCfg, ntypes: u64, len: usize, crashes: bool
             match r.below(8) {
                 0 | 1 => Op::D,
                 2 | 3 => Op::Xm,
-                4 => Op::Ff,
                 _ => Op::X,
             }
         } else {
